@@ -3,6 +3,7 @@ package checks
 import (
 	"encoding/hex"
 	"fmt"
+	"strings"
 
 	"verif/engine/internal/core"
 	"verif/engine/internal/wire"
@@ -39,6 +40,14 @@ func buildOffRuns(pc *ProgCase) {
 			pc.Off = append(pc.Off, offRun{id: fmt.Sprintf("o%d.%s", k, pc.Msgs[i].ID), pre: pre, i: i, enc: pc.R.EncodeAfter(pre, pc.Msgs[i])})
 		}
 	}
+	// a stream of messages: the buffer already holds another message of the same program
+	for i := 0; i < len(pc.Msgs) && i < offMsgs; i++ {
+		pre := pc.Encs[(i+1)%len(pc.Msgs)].Bytes
+		if len(pre) == 0 {
+			continue
+		}
+		pc.Off = append(pc.Off, offRun{id: fmt.Sprintf("om.%s", pc.Msgs[i].ID), pre: pre, i: i, enc: pc.R.EncodeAfter(pre, pc.Msgs[i])})
+	}
 }
 
 func offInput(pc *ProgCase) []string {
@@ -49,7 +58,42 @@ func offInput(pc *ProgCase) []string {
 		in = append(in, fmt.Sprintf("SKIP %s.k %d", o.id, len(o.pre)))
 		in = append(in, fmt.Sprintf("DEC %s %s %s", o.id, pc.R.Root.Name, hex.EncodeToString(o.pre)+hex.EncodeToString(pc.Encs[o.i].Bytes)))
 	}
+	// the same object encoded twice: the bytes are a function of the message, not of what an earlier encode left in the object
+	for i := 0; i < len(pc.Msgs) && i < offMsgs; i++ {
+		in = append(in, fmt.Sprintf("ENCX x.%s %s", pc.Msgs[i].ID, pc.R.FormatValue(nil, pc.R.Root, pc.Msgs[i].Val)))
+	}
 	return in
+}
+
+// twiceChecks: the second encoding of one object equals the first (C01).
+func twiceChecks(ctx *core.Ctx, pc *ProgCase, cc *CodecCell, st *codecStats) {
+	for i := 0; i < len(pc.Msgs) && i < offMsgs; i++ {
+		if !plainEncOK(pc, cc, i) {
+			continue
+		}
+		m := pc.Msgs[i]
+		o := cc.T.Out["ENC:x."+m.ID]
+		if o == nil || (o.Kind == "ERR" && (o.ErrKind == "unsupported" || wallClockAnswer(o.ErrText))) {
+			if o != nil && strings.Contains(o.ErrText, "command") {
+				st.offSkipped[cc.Lang]++
+			}
+			continue
+		}
+		st.offEvals++
+		st.offByLang[baseLang(cc.Lang)]++
+		rep := map[string]any{"name": pc.Prog.Name, "lang": cc.Lang, "message": m.ID, "text": pc.Text, "reference": hexOf(pc.Encs[i].Bytes)}
+		if o.Kind == "ERR" {
+			ctx.Report(fmt.Sprintf("%s|encoding the same object a second time fails|%s|%s", cc.Lang, errWord(o.ErrText), progClass(pc.Prog.Name)),
+				fmt.Sprintf("program %s message %s: %s\n%s", pc.Prog.Name, m.ID, o.ErrText, core.Trunc(pc.Text, 600)), rep)
+			continue
+		}
+		got, _ := hex.DecodeString(o.Hex)
+		if d := wireDiff(pc.Encs[i], got); d != "" {
+			rep["got"] = o.Hex
+			ctx.Report(fmt.Sprintf("%s|the second encoding of the same object differs from the first: %s|%s", cc.Lang, d, optsFor(pc.Prog, d)),
+				fmt.Sprintf("program %s message %s\nfirst  %s\nsecond %s\n%s", pc.Prog.Name, m.ID, core.Trunc(hexOf(pc.Encs[i].Bytes), 300), core.Trunc(o.Hex, 300), core.Trunc(pc.Text, 600)), rep)
+		}
+	}
 }
 
 // plainEncOK: the cell encodes message i exactly like the reference from the initial state.
@@ -76,9 +120,13 @@ func offEncChecks(ctx *core.Ctx, pc *ProgCase, cc *CodecCell, st *codecStats, ki
 		}
 		o := cc.T.Out["ENC:"+run.id]
 		if o == nil || (o.Kind == "ERR" && (o.ErrKind == "unsupported" || wallClockAnswer(o.ErrText))) {
+			if o != nil && strings.Contains(o.ErrText, "command") {
+				st.offSkipped[cc.Lang]++
+			}
 			continue
 		}
 		st.offEvals++
+		st.offByLang[baseLang(cc.Lang)]++
 		m := pc.Msgs[run.i]
 		rep := map[string]any{"name": pc.Prog.Name, "lang": cc.Lang, "message": m.ID, "text": pc.Text, "buffer_before": hex.EncodeToString(run.pre), "reference": hexOf(run.enc.Bytes)}
 		where := fmt.Sprintf("program %s message %s encoded into a buffer that already holds %s\nvalue     %s\nreference %s\n", pc.Prog.Name, m.ID, hex.EncodeToString(run.pre),
@@ -119,9 +167,13 @@ func offDecChecks(ctx *core.Ctx, pc *ProgCase, cc *CodecCell, st *codecStats) {
 		}
 		o := cc.T.Out["DEC:"+run.id]
 		if o == nil || (o.Kind == "ERR" && (o.ErrKind == "unsupported" || wallClockAnswer(o.ErrText))) {
+			if o != nil && strings.Contains(o.ErrText, "command") {
+				st.offSkipped[cc.Lang]++
+			}
 			continue
 		}
 		st.offEvals++
+		st.offByLang[baseLang(cc.Lang)]++
 		m := pc.Msgs[run.i]
 		ref := pc.Encs[run.i].Bytes
 		rep := map[string]any{"name": pc.Prog.Name, "lang": cc.Lang, "message": m.ID, "text": pc.Text, "bytes_read_before": len(run.pre), "buffer": hex.EncodeToString(run.pre) + hexOf(ref)}
